@@ -152,7 +152,8 @@ where
         let n = indices.len();
         let m = indices.first().map(|i| i.len()).unwrap_or(0);
 
-        let indices: DMatrix<f64> = DMatrix::from_iterator(
+        // one query point per ROW (`from_iterator` would fill column-major)
+        let indices: DMatrix<f64> = DMatrix::from_row_iterator(
             n,
             m,
             indices.iter().flat_map(|i| i.iter().cloned()),
